@@ -329,7 +329,12 @@ def _random_history(args):
         g = o.surface_group.surfaces[k].geometry
         gk = type(g).__name__
         if op == "set_radius":
-            r.set_radius(rnd_radius(rnd), k)
+            R = rnd_radius(rnd)
+            # (a plane cannot be the source of a radius pickup: scale * infinity + offset is not a
+            # radius - the same guard as SetRadius in spec/Lens.tla)
+            if math.isinf(R) and any(p.attr_type == "radius" and p.source_surface_idx == k for p in o.pickups.pickups):
+                R = 55.5
+            r.set_radius(R, k)
         elif op == "set_conic":
             if gk != "Plane":
                 r.set_conic(rnd.uniform(-3, 2), k)
@@ -417,6 +422,19 @@ def _random_history(args):
                 if not ok:
                     continue
             r.update()
+            if have_solve is not None:
+                # the pickups applied inside update() may themselves have made the solve unsatisfiable
+                # (ray parallel to the axis): then the lens holds non-finite vertices, the event says
+                # nothing about the property and the history ends here
+                try:
+                    ya, ua = o.paraxial.marginal_ray()
+                    sat = abs(float(np.ravel(ua)[have_solve - 1])) > 0.0
+                except Exception:
+                    sat = True
+                pos = np.ravel(o.surface_group.positions)[1:]
+                if not sat and not np.all(np.isfinite(pos)):
+                    r.events.pop()
+                    break
         elif op == "image_solve" and axial and "solves" in features and have_solve is None:
             try:
                 ya, ua = o.paraxial.marginal_ray()
